@@ -226,6 +226,17 @@ func TestC02(t *testing.T) {
 				run(o, []Req{open, mk(crit, g)})
 			}
 		}
+		// hidden-cursor family: another file is read up to position P, then this object is opened (without
+		// CLOSEFILE) and first read exactly at offset P; and the same after a CD-style read
+		for gi, g := range G {
+			if g.off == 0 || g.off > 131072 || (!r.Thorough() && gi%2 == 1) {
+				continue
+			}
+			for _, crit := range []bool{false, true} {
+				run(o, []Req{mkReq(opOpenFile, "/plain/f131073.bin"), rdcReq(g.off-1, 1), open, mk(crit, g)})
+				run(o, []Req{mkReq(opOpenFile, "/plain/f131073.bin"), rdReq(0, uint32(g.off)), open, mk(crit, g), mk(!crit, g)})
+			}
+		}
 		// histories with something in between
 		step := 11
 		if r.Thorough() {
